@@ -124,7 +124,12 @@ func (w *queueWorld) trueActive(uid string, except string) int64 {
 	return n
 }
 
-func (w *queueWorld) work(which string) {
+func (w *queueWorld) work(which string) { w.workMid(which, 0) }
+
+// workMid: mid > 0 lets the environment act in the middle of the pass, just before the
+// mid-th API write of this step is applied: every pending Job event is delivered to the cache
+// and the store's handler runs all its notifications (the queue controller's handler lags).
+func (w *queueWorld) workMid(which string, mid int) {
 	q, rc := w.cfgQ, w.rcCfg
 	if which == "ind" {
 		q, rc = w.indQ, w.rcInd
@@ -135,7 +140,17 @@ func (w *queueWorld) work(which string) {
 	res := "idle"
 	if !idle {
 		key := q.Ready()[0]
+		ncall := 0
 		w.api.Fault = func(c sim.Call) string {
+			ncall++
+			if ncall == mid {
+				ji := w.ctx.Sim().Jobs()
+				for w.api.DeliverOne("jobs", ji) {
+				}
+				for ji.NotifyNext(0) {
+				}
+				w.c.Count("q.mid-pass-interleaving")
+			}
 			if len(w.faults) == 0 {
 				return ""
 			}
@@ -156,7 +171,11 @@ func (w *queueWorld) work(which string) {
 		}
 	}
 	// the sync result is observed through the queue: Forget on success, AddRateLimited on error
-	w.c.Emit("q.work "+which, fmt.Sprintf("%s calls=%s %s", res, callsStr(w.api.Calls), w.digest()))
+	op := "q.work " + which
+	if which == "cfg" && mid > 0 {
+		op = fmt.Sprintf("q.work cfg %d", mid)
+	}
+	w.c.Emit(op, fmt.Sprintf("%s calls=%s %s", res, callsStr(w.api.Calls), w.digest()))
 	w.c.Count("q.work." + which)
 }
 
@@ -217,7 +236,106 @@ func (w *queueWorld) monitorCall(c sim.Call) {
 }
 
 func runQueue(c *Ctx) {
-	c.ForCases(func(i int, rng *rand.Rand) { queueCase(c, rng) })
+	c.ForCases(func(i int, rng *rand.Rand) {
+		if i%6 == 5 {
+			queueInterleaveCase(c, rng)
+		} else {
+			queueCase(c, rng)
+		}
+	})
+}
+
+func newQueueWorld(c *Ctx, rng *rand.Rand, jcNames []string) *queueWorld {
+	w := &queueWorld{c: c, rng: rng, outOfEnvelope: map[string]bool{}, maxSeen: map[string]int64{}}
+	w.ctx = sim.NewContext()
+	w.clk = fakeclock.NewFakeClock(sim.VirtualBase.Add(time.Duration(rng.Intn(1000)) * time.Second))
+	ktime.Clock = w.clk
+	w.api = sim.NewSimAPI(w.clk)
+	w.api.Install(w.ctx)
+	w.api.Observe = w.monitorCall
+	for _, n := range jcNames {
+		w.uids = append(w.uids, "u-"+n)
+	}
+	w.uids = append(w.uids, "u-x")
+	w.boot()
+	c.Emit(fmt.Sprintf("q.reset %d %s", w.now(), strings.Join(w.uids, ",")), w.digest())
+	return w
+}
+
+func (w *queueWorld) addJC(n string, max int64) {
+	jc := &execution.JobConfig{ObjectMeta: metav1.ObjectMeta{Namespace: "ns", Name: n, UID: types.UID("u-" + n)}}
+	jc.Spec.Concurrency.MaxConcurrency = &max
+	_, _ = w.api.Create("jobconfigs", jc, false)
+	w.maxSeen["u-"+n] = max
+	w.c.Emit(fmt.Sprintf("q.jc %s %d", n, max), w.digest())
+}
+
+// addOwnedJob creates a Job of JobConfig n (label + owner reference) with the given policy
+// (0 Allow, 1 Forbid, 2 Enqueue), one second after the previous one.
+func (w *queueWorld) addOwnedJob(name, n string, pol int) {
+	uid := "u-" + n
+	j := &execution.Job{ObjectMeta: metav1.ObjectMeta{Namespace: "ns", Name: name, Labels: map[string]string{jobconfig.LabelKeyJobConfigUID: uid}}}
+	t := true
+	j.OwnerReferences = []metav1.OwnerReference{{APIVersion: execution.GroupVersion.String(), Kind: execution.KindJobConfig, Name: n, UID: types.UID(uid), Controller: &t}}
+	j.Spec.StartPolicy = &execution.StartPolicySpec{ConcurrencyPolicy: []execution.ConcurrencyPolicy{"Allow", "Forbid", "Enqueue"}[pol]}
+	w.clk.Step(time.Second)
+	w.c.Emit("q.adv 1000000000", w.digest())
+	_, _ = w.api.Create("jobs", j, false)
+	w.jobsSeen = append(w.jobsSeen, name)
+	w.c.Emit(fmt.Sprintf("q.job %s %s %s %s 1 %d -", name, uid, n, uid, pol), w.digest())
+}
+
+// queueInterleaveCase: directed histories in which a running Job finishes and the store
+// learns about it in the middle of a pass (at an API write of that pass), with mixed policies
+// queued behind each other.
+func queueInterleaveCase(c *Ctx, rng *rand.Rand) {
+	w := newQueueWorld(c, rng, []string{"a"})
+	max := int64(1 + rng.Intn(2))
+	w.addJC("a", max)
+	w.flush()
+	starts0 := c.Stats["q.start-ok"]
+	n := 0
+	mk := func(pol int) string {
+		n++
+		name := fmt.Sprintf("j%02d", n)
+		w.addOwnedJob(name, "a", pol)
+		return name
+	}
+	var running []string
+	for i := int64(0); i < max; i++ {
+		running = append(running, mk([]int{0, 2}[rng.Intn(2)]))
+	}
+	w.flush()
+	w.work("cfg")
+	w.flush()
+	// queued Jobs of mixed policies behind the limit
+	for i, k := 0, 3+rng.Intn(3); i < k; i++ {
+		mk(rng.Intn(3))
+	}
+	w.flush()
+	// one running Job finishes; the event is not delivered yet
+	fin := running[rng.Intn(len(running))]
+	w.api.Mutate("jobs", "ns/"+fin, func(o runtime.Object) { o.(*execution.Job).Status.Phase = execution.JobSucceeded })
+	c.Emit(fmt.Sprintf("q.phase %s 1", fin), w.digest())
+	w.workMid("cfg", 1+rng.Intn(2))
+	for i, k := 0, 2+rng.Intn(6); i < k; i++ {
+		switch rng.Intn(6) {
+		case 0:
+			w.flush()
+		case 1:
+			w.finishRejected()
+		case 2:
+			mk(rng.Intn(3))
+		case 3:
+			w.workMid("cfg", 1+rng.Intn(2))
+		default:
+			w.work("cfg")
+		}
+	}
+	w.settle()
+	if c.Stats["q.start-ok"] > starts0 {
+		c.Nontrivial()
+	}
 }
 
 func queueCase(c *Ctx, rng *rand.Rand) {
@@ -365,8 +483,21 @@ func queueCase(c *Ctx, rng *rand.Rand) {
 			c.Emit(fmt.Sprintf("q.phase %s %s", name, B(term)), w.digest())
 		case r < 44 && len(w.jobsSeen) > 0: // delete
 			name := w.jobsSeen[rng.Intn(len(w.jobsSeen))]
-			w.api.Remove("jobs", "ns/"+name)
-			c.Emit("q.del "+name, w.digest())
+			if rng.Intn(3) == 0 {
+				// deletion of a Job that still has its finalizer: it only gets a deletion timestamp
+				now := metav1.NewTime(time.Unix(w.clk.Now().Unix(), 0))
+				w.api.Mutate("jobs", "ns/"+name, func(o runtime.Object) {
+					j := o.(*execution.Job)
+					if j.DeletionTimestamp == nil {
+						j.DeletionTimestamp = &now
+						j.Finalizers = []string{"execution.furiko.io/delete-dependents-finalizer"}
+					}
+				})
+				c.Emit("q.markdel "+name, w.digest())
+			} else {
+				w.api.Remove("jobs", "ns/"+name)
+				c.Emit("q.del "+name, w.digest())
+			}
 		case r < 47 && len(w.jobsSeen) > 0: // external start (not through the queue controller)
 			name := w.jobsSeen[rng.Intn(len(w.jobsSeen))]
 			if j := w.apiJob(name); j != nil {
@@ -403,7 +534,11 @@ func queueCase(c *Ctx, rng *rand.Rand) {
 			w.ctx.Sim().Jobs().Resync()
 			c.Emit("q.resync", w.digest())
 		case r < 93:
-			w.work([]string{"cfg", "cfg", "ind"}[rng.Intn(3)])
+			if rng.Intn(4) == 0 {
+				w.workMid("cfg", 1+rng.Intn(3))
+			} else {
+				w.work([]string{"cfg", "cfg", "ind"}[rng.Intn(3)])
+			}
 		case r < 96:
 			f := []string{sim.FaultErr, sim.FaultConflict, sim.FaultTimeout}[rng.Intn(3)]
 			if rng.Intn(20) == 0 {
